@@ -736,7 +736,9 @@ pub fn replay(path: &Path, opts: &Opts) -> i32 {
         eprintln!("HARNESS-ERROR: unknown clause {clause_id}");
         return 2;
     };
-    if c.profile.unwrap_or("release") != current_profile() {
+    // VCHECK_ANY_PROFILE=1: run the clause in this binary whatever profile it was written for (check.sh uses it to look for a
+    // fuzz-target failure - the targets are built with debug assertions - under the relassert build of the harness)
+    if c.profile.unwrap_or("release") != current_profile() && std::env::var("VCHECK_ANY_PROFILE").is_err() {
         if let Some(bin) = &opts.relassert_bin {
             let st = std::process::Command::new(bin).arg("replay").arg(path).arg("--verif-dir").arg(&opts.verif_dir).status();
             return st.ok().and_then(|s| s.code()).unwrap_or(2);
